@@ -272,6 +272,54 @@ def sl_step_case(ramp0=True, dtv=1, mass=1000):
                 max_paths=20000, timeout_ms=60000, check_side=False)
 
 
+# ---------------------------------------------------------------- walk_timed_path: the catch-up index logic
+SC.add_wrapper("W_TimedWalk", [("sim", "SpeedLimitTrainSim"), ("t0", "f64"), ("times", "Vec<f64>")])
+
+
+def timed_walk_case(n):
+    """SpeedLimitTrainSim::walk_timed_path on a timed path of n entries with symbolic, non-decreasing scheduled times and a symbolic
+    initial clock (on time, late, later than the whole schedule). Path extension and the physics are stubbed: extend_path succeeds,
+    step advances the clock by at least one second or fails, walk_internal succeeds. Claim: the index arithmetic never panics."""
+    import traincommon as tc
+    from values import Enum, UNIT, Opaque, to_z3
+    sim = tc.slts_tmpl(tc.dummy_consist_tmpl())
+    sim["state"]["time"] = Sym("t0")
+    recv = {"sim": sim, "t0": Sym("t0"), "times": [Sym(f"t{k}") for k in range(n)]}
+    tpath = [{"link_idx": k + 1, "time": Sym(f"t{k}")} for k in range(n)]
+
+    def assume(S):
+        d = [("initial clock 0 <= t0 <= 10", z3.And(S["t0"] >= 0, S["t0"] <= 10))]
+        prev = 0
+        for k in range(n):
+            d.append((f"scheduled times non-decreasing in [0, 3]: t{k}", z3.And(S[f"t{k}"] >= prev, S[f"t{k}"] <= 3)))
+            prev = S[f"t{k}"]
+        return d
+
+    def stub_ok(eng, st, args):
+        return [(st, Enum("Result", 0, [UNIT]))]
+
+    def stub_step(eng, st, args):
+        p = args[0]
+        simv = eng.load_ptr(st, p)
+        si_ = eng.mir.field_index("SpeedLimitTrainSim", "state", len(simv.fields))
+        ti_ = eng.mir.field_index("TrainState", "time", len(simv.fields[si_].fields))
+        d = eng.fresh("step_dt")
+        st.define(d >= 1)
+        s_err = st.fork()
+        eng.store(st, p.root, tuple(p.path) + (si_, ti_), to_z3(simv.fields[si_].fields[ti_]) + d)
+        return [(st, Enum("Result", 0, [UNIT])), (s_err, Enum("Result", 1, [Opaque("anyhow::Error")]))]
+
+    claims = [Claim("walk_timed_path never panics, whatever the clock is relative to the schedule", None, when="nopanic", role="timed_walk_no_panic")]
+    c = Case(f"walk_timed_path_n{n}", "C03", "W_TimedWalk", recv,
+             [Call("SpeedLimitTrainSim::walk_timed_path", [("&Vec<link_impl::Link>", []), ("&Vec<LinkIdxTime>", tpath)], recv_path="sim")], assume, claims,
+             bounds={"timed path entries": n, "scheduled times": "symbolic, non-decreasing, within [0, 3] s", "initial clock": "symbolic in [0, 10] s",
+                     "environment": "extend_path and walk_internal succeed, step advances the clock by >= 1 s or fails (stubs)"},
+             stubs={"SpeedLimitTrainSim::extend_path": stub_ok, "SpeedLimitTrainSim::step": stub_step, "SpeedLimitTrainSim::walk_internal": stub_ok},
+             expect_ok=True, max_paths=20000, loop_bound=12, check_side=False)
+    c.no_tv = True
+    return c
+
+
 def posted_profile_cases(tier):
     """the speed-point profile the braking curve is built from is never above a posted restriction where it applies: the insert_speed /
     add_speeds harnesses of C02, run under this property as well (a restriction that disappears from the profile is an overspeed here)"""
@@ -285,6 +333,7 @@ def posted_profile_cases(tier):
 
 def m_cases(tier):
     cs = posted_profile_cases(tier)
+    cs += [timed_walk_case(2), timed_walk_case(3), timed_walk_case(4)]
     cs.append(sl_step_case())
     cs.append(recalc_case(1))
     cs.append(recalc_case(2))
